@@ -1,14 +1,15 @@
 """C04 - UTM/UPS: zone rules, legal rectangles, closure, zone strings, EPSG.
 
 M1: MC_UTMUPS enumerates (lat, lon, setzone) on the degree lattice with +-1 ulp at every zone/band/exception
-edge, the grid rectangles on a 50 km lattice +-1 ulp, zone strings and EPSG codes, checking model invariants.
-M2: every vector is executed on the real UTMUPS.  M3: Trace_UTMUPS validates lattice observations exactly and
+edge, the grid rectangles on a 50 km lattice +-1 ulp, zone strings (every one- and two-digit zone number) and EPSG codes, and Transfer requests (point x input zone x
+output zone spec x hemispheres), checking model invariants.
+M2: every vector is executed on the real UTMUPS, through every overload and with the optional arguments omitted as well.  M3: Trace_UTMUPS validates lattice observations exactly and
 seeded random round-trip / plumbing / transfer / NaN laws with the documented 5 nm tolerance."""
 import vlib
 
 LEVEL = 'model_checking'
 LEVEL_TEXT = ('Exact integer TLA+ model of zone selection (Norway/Svalbard, UPS limits), closed coordinate rectangles, zone-string '
-              'and EPSG codecs; TLC enumerates the edge lattice, checks invariants on the model and every vector is replayed on '
+              'and EPSG codecs, the output zone of Transfer (MATCH/UTM/STANDARD), the documented central scale factors; TLC enumerates the edge lattice, checks invariants on the model and every vector is replayed on '
               'the real code with TLC validating each observation; projection plumbing, closure (5 nm), Transfer and NaN laws '
               'are validated on seeded random samples.')
 DESIGN_REF = 'DESIGN.md section 4, C04'
@@ -30,7 +31,7 @@ def to_rows(vals):
 
 def run(ctx):
     stride = 3 if ctx.quick else 1
-    base = 'INIT Init\nNEXT Next\nCONSTANTS Stride = %d Part = "%s" NChunks = 64\nINVARIANTS SZInv StrInv RevInv Emit\nCHECK_DEADLOCK FALSE\n'
+    base = 'INIT Init\nNEXT Next\nCONSTANTS Stride = %d Part = "%s" NChunks = 64\nINVARIANTS SZInv StrInv RevInv TrInv Emit\nCHECK_DEADLOCK FALSE\n'
     parts = [(p, base % (stride, p)) for p in ('sz', 'fwd', 'rev')]
     nrec = 60000 if ctx.quick else 1500000
     vlib.lattice_pipeline(ctx, 'MC_UTMUPS', parts, to_rows, 'drv_utm', ['replay'], ['record', ctx.seed, nrec],
@@ -41,7 +42,10 @@ def run(ctx):
 
 RULE = ('vectors enumerated by TLC from MC_UTMUPS: (lat, lon, setzone) on the integer-degree lattice with -1/0/+1 ulp at every zone, '
         'band, Norway/Svalbard and UPS edge; grid points on a 50 km lattice +-1 ulp around every rectangle edge for both mgrslimits; '
-        'zone strings (digits x hemisphere words x malformed variants); all EPSG integers 32000..33000; plus seeded random records. '
+        'zone strings (every 0-2 digit number and malformed variants x hemisphere words), EncodeZone output decoded again by the library; '
+        'all EPSG integers 32000..33000; Transfer lattice (21 latitudes x 16 longitudes x input zone in {standard-1, standard, standard+1, UPS} x '
+        'zoneout in {-5, INVALID, MATCH, UTM, STANDARD, UPS, zin, zin+-1, 61} x both hemisphere conventions in and out); every Forward/Reverse/'
+        'StandardZone/EncodeZone vector also executed through the short overloads and with optional arguments omitted; plus seeded random records. '
         'distinct_nontrivial = distinct lattice vectors.')
 TRUSTED = ['TLC', 'UTMUPS.tla', 'drv_utm.cpp (nanometre quantisation, local metric for the geographic closure distance)']
 
